@@ -15,6 +15,7 @@ package meta
 
 // RemoveFinalizer removes exactly the given finalizer and keeps the others (and their order).
 //@ func RemoveFinalizer
+//@   locals newFinalizers: []string
 //@   params finalizers, finalizer
 //@   tags C13
 //@   loop 1 invariant -1 <= rangeindex && rangeindex < len(finalizers)
@@ -27,6 +28,7 @@ package meta
 
 // union of the two lists: everything of the first, then what the second adds (C13, C16)
 //@ func MergeFinalizers
+//@   locals newFinalizers: []string; f: string
 //@   params finalizers1, finalizers2
 //@   tags C13, C16
 //@   fresh result
